@@ -110,8 +110,9 @@ fn measure(schema: &Schema, batches: &[RecordBatch]) -> (usize, Vec<ColM>) {
         let int = matches!(schema.field(c).data_type(), DataType::Int64 | DataType::Int32 | DataType::UInt64);
         for b in batches {
             let a = b.column(c);
+            let ln = a.logical_nulls();
             for r in 0..a.len() {
-                if a.is_null(r) { m.nulls += 1; continue; }
+                if ln.as_ref().map(|n| n.is_null(r)).unwrap_or(false) { m.nulls += 1; continue; }
                 let v = match ScalarValue::try_from_array(a, r) { Ok(v) => v, Err(_) => continue };
                 if int {
                     let x: Option<i128> = match &v { ScalarValue::Int64(Some(x)) => Some(*x as i128), ScalarValue::Int32(Some(x)) => Some(*x as i128), ScalarValue::UInt64(Some(x)) => Some(*x as i128), _ => None };
@@ -176,7 +177,7 @@ fn claims(st: &Statistics, rows: usize, cols: &[ColM]) -> (Vec<Claim>, usize) {
     (v, vac)
 }
 
-struct NodeS { name: String, part: i64, claims: Vec<Claim>, vac: usize, err: Option<String> }
+struct NodeS { idx: usize, kids: Vec<usize>, name: String, part: i64, claims: Vec<Claim>, vac: usize, err: Option<String> }
 
 async fn run_part(node: &Arc<dyn ExecutionPlan>, part: Option<usize>, tctx: &Arc<TaskContext>) -> Result<Vec<RecordBatch>, String> {
     let f = fresh(node).map_err(|e| e.to_string())?;
@@ -201,7 +202,7 @@ async fn examine(plan: Arc<dyn ExecutionPlan>, tctx: Arc<TaskContext>, explain: 
     let mut nodes = vec![];
     post_order(&plan, &mut nodes);
     let mut res = vec![];
-    for (node, _) in &nodes {
+    for (idx, (node, kids)) in nodes.iter().enumerate() {
         let np = node.properties().partitioning.partition_count();
         let mut parts: Vec<Option<usize>> = vec![None];
         if np > 1 { for p in 0..np { parts.push(Some(p)); } }
@@ -209,17 +210,17 @@ async fn examine(plan: Arc<dyn ExecutionPlan>, tctx: Arc<TaskContext>, explain: 
             let pj = part.map(|p| p as i64).unwrap_or(-1);
             let st = match StatisticsContext::new().compute(node.as_ref(), &StatisticsArgs::new().with_partition(part)) {
                 Ok(s) => s,
-                Err(e) => { res.push(NodeS { name: node.name().to_string(), part: pj, claims: vec![], vac: 0, err: Some(format!("stats: {e}")) }); continue; }
+                Err(e) => { res.push(NodeS { idx, kids: kids.clone(), name: node.name().to_string(), part: pj, claims: vec![], vac: 0, err: Some(format!("stats: {e}")) }); continue; }
             };
             let any_exact = matches!(st.num_rows, Precision::Exact(_)) || st.column_statistics.iter().any(|c| matches!(c.null_count, Precision::Exact(_))
                 || matches!(c.distinct_count, Precision::Exact(_)) || matches!(c.min_value, Precision::Exact(_)) || matches!(c.max_value, Precision::Exact(_)) || matches!(c.sum_value, Precision::Exact(_)));
-            if !any_exact { res.push(NodeS { name: node.name().to_string(), part: pj, claims: vec![], vac: 0, err: None }); continue; }
+            if !any_exact { res.push(NodeS { idx, kids: kids.clone(), name: node.name().to_string(), part: pj, claims: vec![], vac: 0, err: None }); continue; }
             match run_part(node, part, &tctx).await {
-                Err(e) => res.push(NodeS { name: node.name().to_string(), part: pj, claims: vec![], vac: 0, err: Some(format!("exec: {e}")) }),
+                Err(e) => res.push(NodeS { idx, kids: kids.clone(), name: node.name().to_string(), part: pj, claims: vec![], vac: 0, err: Some(format!("exec: {e}")) }),
                 Ok(b) => {
                     let (rows, cols) = measure(node.schema().as_ref(), &b);
                     let (cl, vac) = claims(&st, rows, &cols);
-                    res.push(NodeS { name: node.name().to_string(), part: pj, claims: cl, vac, err: None });
+                    res.push(NodeS { idx, kids: kids.clone(), name: node.name().to_string(), part: pj, claims: cl, vac, err: None });
                 }
             }
         }
@@ -234,7 +235,7 @@ fn line(id: usize, stream: &str, tp: usize, bs: usize, opts: usize, desc: &str, 
         Ok(Status::PlanErr(e)) => format!("{head},\"status\":\"plan_err\",\"err\":{},\"ok\":true}}", json_str(&e.chars().take(300).collect::<String>())),
         Ok(Status::Ok(nodes)) => {
             let ok = nodes.iter().all(|n| n.claims.iter().all(|c| c.ok));
-            let nj: Vec<String> = nodes.iter().map(|n| format!("{{\"name\":{},\"part\":{},\"vac\":{},\"err\":{},\"claims\":[{}]}}", json_str(&n.name), n.part, n.vac,
+            let nj: Vec<String> = nodes.iter().map(|n| format!("{{\"idx\":{},\"kids\":{:?},\"name\":{},\"part\":{},\"vac\":{},\"err\":{},\"claims\":[{}]}}", n.idx, n.kids, json_str(&n.name), n.part, n.vac,
                 n.err.as_ref().map(|e| json_str(&e.chars().take(200).collect::<String>())).unwrap_or("null".into()),
                 n.claims.iter().map(|c| format!("{{\"stat\":\"{}\",\"col\":{},\"claimed\":{},\"measured\":{},\"num\":{},\"ok\":{}}}", c.stat, c.col, json_str(&c.claimed), json_str(&c.measured),
                     c.num.map(|(a, b)| format!("[\"{a}\",\"{b}\"]")).unwrap_or("null".into()), c.ok)).collect::<Vec<_>>().join(","))).collect();
@@ -246,6 +247,10 @@ fn line(id: usize, stream: &str, tp: usize, bs: usize, opts: usize, desc: &str, 
 fn session(tabs: &[Tab], tp: usize, bs: usize, opts: usize) -> SessionContext {
     let mut cfg = SessionConfig::new().with_target_partitions(tp).with_batch_size(bs);
     for (k, v) in SQL_OPTS[opts] { cfg = cfg.set_str(k, v); }
+    // every sub-plan is executed several times on copies that share dynamic-filter state: keep dynamic filters out of these plans
+    for k in ["enable_dynamic_filter_pushdown", "enable_join_dynamic_filter_pushdown", "enable_topk_dynamic_filter_pushdown", "enable_aggregate_dynamic_filter_pushdown"] {
+        cfg = cfg.set_str(&format!("datafusion.optimizer.{k}"), "false");
+    }
     let ctx = SessionContext::new_with_config(cfg);
     for (i, t) in tabs.iter().enumerate() { register(&ctx, i, t); }
     ctx
